@@ -8,6 +8,7 @@ mod exec;
 mod gen;
 mod json;
 mod node;
+mod nodrop;
 mod ops;
 mod rng;
 mod run;
@@ -624,6 +625,11 @@ fn cmd_run(a: &Args) -> i32 {
                     }
                 });
                 (res, format!("diff seed={} idx={} pseed={} len={}", seed, this, pseed, len))
+            }
+            None if gen == "nodrop" => {
+                let mut res = empty_result();
+                let desc = nodrop::run(this, seed, &mut res);
+                (res, format!("nodrop seed={} idx={} [{}]", seed, this, desc))
             }
             None if gen == "deadclone" || gen == "deaddrop" || gen == "deadclonelate" || gen == "deadclonepanic" || gen == "deadcloneafterweak" || gen == "deadclonefrom" => {
                 let r = run_child(&gen, this, seed);
